@@ -17,7 +17,7 @@ from elementpath.sequences import xlist, XSequence
 from elementpath.helpers import split_function_test
 
 from elementpath.sequence_types import match_sequence_type
-from .functions import XPathFunction
+from .functions import XPathFunction, COMMENTS_LOOKAHEAD
 
 
 class XPathArray(XPathFunction):
@@ -26,7 +26,7 @@ class XPathArray(XPathFunction):
     """
     symbol = 'array'
     label = 'array'
-    pattern = r'(?<!\$)\barray(?=\s*(?:\(\:.*\:\))?\s*\{(?!\:))'
+    pattern = rf'(?<!\$)\barray(?={COMMENTS_LOOKAHEAD}\{{(?!\:))'
     _array: Optional[list[ta.ValueType]] = None
 
     def __init__(self, parser: ta.XPathParserType,
